@@ -241,6 +241,21 @@ func run(c Case, rec *ev.Recorder) ev.Outcome {
 		applied++
 		classes = append(classes, "variant:"+v.Kind+":"+v.Op, fmt.Sprintf("cell:%s:commit=%v", v.Kind, nc > 0))
 	}
+	// every commitment must have its own Pedersen trapdoor: with a shared sigma the batched
+	// proof of knowledge only shows that the commitments lie in the span of the UNION of the
+	// bases, and committed wires can be moved between commitments (the challenge of one
+	// commitment can then be chosen before the wires it should bind). Observable on the keys:
+	// G^{-sigma_i} must be pairwise distinct.
+	if cks := zk.Elem(g.VK).FieldByName("CommitmentKeys"); cks.IsValid() && cks.Len() >= 2 {
+		for i := 0; i < cks.Len(); i++ {
+			for j := i + 1; j < cks.Len(); j++ {
+				if zk.PEqual(cks.Index(i).FieldByName("GSigmaNeg"), cks.Index(j).FieldByName("GSigmaNeg")) {
+					return ev.Outcome{Violation: fmt.Sprintf("verifying key: commitments %d and %d share one Pedersen trapdoor (identical GSigmaNeg): commitments are not bound to their own bases", i, j)}
+				}
+			}
+		}
+		classes = append(classes, "distinct-commitment-trapdoors-checked")
+	}
 	// binding of the commitment challenge: the data hashed into the challenge of a commitment
 	// must include the committed PUBLIC inputs (the private ones are bound by the Pedersen
 	// commitment itself). Observable with a recording hash-to-field function.
